@@ -1,3 +1,252 @@
-import Mtv.Tlgen.Emit
+/-
+  C14 — "Schema parser and code generator translate any schema faithfully, reproducibly".
+
+  The theorems are about the model of internal/cmd/tlgen (Mtv/Tlgen/*.lean: cursor, parser with the
+  repairs of /verif/pending_fixes/C14-parser-*.patch, classification, emitted declarations), which
+  the check ties to the working tree on every run (real `tlparser.ParseSchema`, `gen.NewGenerator` and
+  the `tlgen` binary against the compiled model on the same schemas). Clauses of the property:
+
+    (P1) the parser extracts exactly the declared names, ids, parameters (order, type, vector and flag
+         markers) and result types, for any schema of the documented subset — `parse_render`,
+         `parse_document`, `parse_structure`;
+    (P2) the generated package declares those constructors with those ids, field layouts and flag
+         positions — classification and declarations: `classify_spec`, `classify_groups`,
+         `ctor_name_rule`, `emit_ids`; that the *real* generator's files are this is translation
+         validation by the harness (observed, not proved), as is "compiles";
+    (P3) reproducible output, and the shipped input schema is accepted — observed by the harness.
+
+  Helper lemmas are in Mtv/Lemmas/C14*.lean.
+-/
+import Mtv.Lemmas.C14Example
 namespace Mtv.Tlgen
+
+/-! ## (P1) the parser -/
+
+/-- **Main theorem (P1).** Printing any well-formed schema — every constructor and function with its
+name, id, parameters in order with type, `Vector<…>` and `flags.N?` markers, result (plain or
+`Vector<…>`), both sections, and all four kinds of annotations (`@type`, `@constructor`, `@method`,
+`@param`) — and parsing the text gives the schema back: the same constructors, the same functions
+(field by field, comments included) and the same type comments (a Go map: compared by lookup). -/
+theorem parse_render (a : Schema) (wf : WFAst a) :
+    ∃ s, parseSchema (render a) = .ok s ∧ s.objects = a.objects ∧ s.methods = a.methods ∧
+      ∀ t, mapGet s.typeComments t = mapGet a.typeComments t := by
+  obtain ⟨st, hden, ho, hm, htc⟩ := denote_toItems a wf
+  exact ⟨st.result, parseSchema_renderItems a.toItems (wf_toItems a wf) st hden, ho, hm, htc⟩
+
+/-- the hypothesis holds for the example schema (`Mtv/Lemmas/C14Example.lean`: an enum constructor with a
+type comment, a struct with `flags:#`, `flags.5?true` and `Vector<long>` fields and `@param` comments,
+a namespaced function returning `Vector<PeerSettings>`), and the conclusion can be watched by evaluation -/
+example : ∃ s, parseSchema (render exSchema) = .ok s ∧ s.objects = exSchema.objects ∧
+    s.methods = exSchema.methods ∧ ∀ t, mapGet s.typeComments t = mapGet exSchema.typeComments t :=
+  parse_render exSchema exSchema_wf
+
+example : (parseSchema (render exSchema)).toOption = some exSchema := by decide +kernel
+
+/-- what a printed schema looks like -/
+example : String.ofList (render { objects := [exSettings], methods := [], typeComments := [] }) =
+    "// @constructor\n// @param flags\n// @param silent no sound\n// @param user_ids\n" ++
+    "peerSettings#733f2961 flags:# silent:flags.5?true user_ids:Vector<long> = PeerSettings;\n---functions---\n" := by
+  decide +kernel
+
+example : (parseSchema (render exSchema)).toOption = some exSchema := by decide +kernel
+
+/-- **(P1), any layout.** A document is a list of lines — section markers, empty lines, comments
+(plain or annotations, any text without a line end), definitions — in any order. The parser consumes
+its text line by line: its result is the loop state `denoteItems` assigns to the lines, i.e. every
+definition is read back exactly (`PState.define` receives the very `Def` that was printed) and every
+comment line reaches the annotation logic with exactly its text. -/
+theorem parse_document (items : List Item) (wf : WFItems items) (st : PState)
+    (h : denoteItems items {} = some st) :
+    parseSchema (renderItems items) = .ok st.result :=
+  parseSchema_renderItems items wf st h
+
+example : ∃ st, denoteItems exDoc {} = some st ∧ parseSchema (renderItems exDoc) = .ok st.result := by
+  obtain ⟨st, h, -, -⟩ := denoteItems_structure exDoc exDoc_wf {} exDoc_noVector
+  exact ⟨st, h, parse_document exDoc exDoc_wf st h⟩
+
+/-- **(P1), structure.** Whatever comments, annotations, empty lines and section switches a document
+contains, the parser extracts exactly the declared definitions: the constructors are the definitions
+of the types sections, the functions those of the functions sections, in order, each with its name,
+id, parameters (order, type, vector marker, flag marker and bit) and result; comments can only affect
+the `comment` fields. (Hypothesis `NoVectorTypes`: no constructor is declared with a `Vector<…>`
+result — the parser refuses such a schema with "type can't be a vector".) -/
+theorem parse_structure (items : List Item) (wf : WFItems items) (hv : NoVectorTypes false items) :
+    ∃ s, parseSchema (renderItems items) = .ok s ∧
+      s.objects.map Obj.strip = declaredObjects false items ∧
+      s.methods.map Method.strip = declaredMethods false items := by
+  obtain ⟨st, hden, ho, hm⟩ := denoteItems_structure items wf {} hv
+  refine ⟨st.result, parseSchema_renderItems items wf st hden, ?_, ?_⟩
+  · simpa [PState.result] using ho
+  · simpa [PState.result] using hm
+
+/-- the example document (function first, plain comments, an unknown annotation, an empty line) declares
+the two constructors and the function of the example schema -/
+example : ∃ s, parseSchema (renderItems exDoc) = .ok s ∧
+    s.objects.map Obj.strip = [exJpeg.toDef.toObj, exSettings.toDef.toObj] ∧
+    s.methods.map Method.strip = [exGetPeers.toDef.toMethod] :=
+  parse_structure exDoc exDoc_wf exDoc_noVector
+
+/-- **(P1), one definition.** `parseDefinition` on a printed definition returns that definition and
+leaves the cursor behind its `;` — for any well-formed definition, anything before it (`rev`) and
+anything after it (`x :: tl`). -/
+theorem parse_definition (d : Def) (wf : WFDef d) (rev : Str) (x : Char) (tl : Str) :
+    parseDefinition (Cursor.atRem rev (renderDef d ++ x :: tl)) =
+      .ok d (Cursor.atRem ((renderDef d).reverse ++ rev) (x :: tl)) :=
+  parseDefinition_render d wf rev x tl
+
+example : parseDefinition (Cursor.atRem [] (renderDef exSettings.toDef ++ ['\n'])) =
+    .ok exSettings.toDef (Cursor.atRem ((renderDef exSettings.toDef).reverse ++ []) ['\n']) :=
+  parse_definition exSettings.toDef exSettings_wf [] '\n' []
+
+/-- **The cursor model is cursor.go's index arithmetic.** For the zipper representation
+(`pos = rev.length`, `source = rev.reverse ++ cur :: rest`): `next()` fails exactly at `pos = len-1`
+and otherwise increments `pos`; `Unread(n)` gives `max(pos-n, 0)`; `Skip(n)` gives
+`min(pos+n, len-1)`; none of them changes the source. -/
+theorem cursor_index_arithmetic (c : Cursor) (n : Nat) :
+    (c.next = none ↔ c.pos + 1 = c.source.length) ∧
+    (∀ c', c.next = some c' → c'.pos = c.pos + 1 ∧ c'.source = c.source) ∧
+    ((c.unread n).pos = c.pos - n ∧ (c.unread n).source = c.source) ∧
+    ((c.skip n).pos = min (c.pos + n) (c.source.length - 1) ∧ (c.skip n).source = c.source) :=
+  ⟨Cursor.next_none_iff c, fun c' h => Cursor.next_pos c c' h, Cursor.unread_pos n c, Cursor.skip_pos n c⟩
+
+/-- `Skip(5)` two runes before the end stops on the last rune; `Unread(9)` from there stops at 0 -/
+example : ((Cursor.atRem [] (cs!"ab;\n")).skip 1 |>.skip 5).pos = 3 ∧
+    (((Cursor.atRem [] (cs!"ab;\n")).skip 3).unread 9).pos = 0 := by decide +kernel
+
+/-! ## (P2) classification and declarations -/
+
+/-- **Classification rule of `createInternalSchema`.** For a type `t` and its constructors in the
+schema (`ctors = objs.filter (·.iface = t)`, in schema order): `t` is listed as an *enum* iff it has a constructor and none has a
+parameter; as a *single-constructor struct* iff it has exactly one constructor and that one has a
+parameter; as an *interface with one struct per constructor* iff it has several constructors and
+some has a parameter — and in each class it is listed with exactly its constructors' names in order. -/
+theorem classify_spec (objs : List Obj) (t : Str) (names : List Str) (ctors : List Obj)
+    (hctors : ctors = objs.filter (·.iface = t)) :
+    ((t, names) ∈ (classify objs).enums ↔
+        ctors ≠ [] ∧ names = ctors.map (·.name) ∧ ∀ o ∈ ctors, o.params = []) ∧
+    ((t, names) ∈ (classify objs).singles ↔
+        names = ctors.map (·.name) ∧ ctors.length = 1 ∧ ∃ o ∈ ctors, o.params ≠ []) ∧
+    ((t, names) ∈ (classify objs).types ↔
+        names = ctors.map (·.name) ∧ 2 ≤ ctors.length ∧ ∃ o ∈ ctors, o.params ≠ []) := by
+  have he := mem_classify objs .enum t names
+  have hs := mem_classify objs .single t names
+  have hi := mem_classify objs .iface t names
+  simp only at he hs hi
+  rw [kindOf_enum_iff, ← hctors] at he
+  rw [kindOf_single_iff, ← hctors] at hs
+  rw [kindOf_iface_iff, ← hctors] at hi
+  refine ⟨he, ?_, ?_⟩
+  · rw [hs]
+    constructor
+    · rintro ⟨-, h2, h3, h4⟩; exact ⟨h2, h4, h3⟩
+    · rintro ⟨h2, h4, h3⟩
+      exact ⟨by intro e; simp [e] at h4, h2, h3, h4⟩
+  · rw [hi]
+    constructor
+    · rintro ⟨h1, h2, h3, h4⟩
+      refine ⟨h2, ?_, h3⟩
+      have : ctors.length ≠ 0 := by
+        intro e; exact h1 (List.length_eq_zero_iff.mp e)
+      omega
+    · rintro ⟨h2, h4, h3⟩
+      exact ⟨by intro e; simp [e] at h4, h2, h3, by omega⟩
+
+/-- in the example schema `storage.FileType` (one constructor, no parameter) is an enum and
+`PeerSettings` (one constructor with parameters) a single-constructor struct -/
+example : (cs!"storage.FileType", [cs!"storage.fileJpeg"]) ∈ (classify exSchema.objects).enums ∧
+    (cs!"PeerSettings", [cs!"peerSettings"]) ∈ (classify exSchema.objects).singles ∧
+    (classify exSchema.objects).types = [] := by decide +kernel
+
+/-- **The groups of `createInternalSchema`** (`reversedObjects`) are exactly: every type that has a
+constructor, with its constructors in schema order — each constructor is in the group of its own
+type and in no other. -/
+theorem classify_groups (objs : List Obj) (t : Str) (os : List Obj) :
+    (t, os) ∈ groupByIface objs ↔ os ≠ [] ∧ os = objs.filter (·.iface = t) :=
+  mem_groupByIface objs t os
+
+example : (cs!"PeerSettings", [exSettings]) ∈ groupByIface exSchema.objects :=
+  (classify_groups _ _ _).mpr ⟨by simp, by decide +kernel⟩
+
+/-- **The `Obj` suffix rule**, for any naming function: a struct (of a type with several
+constructors) or an enum constant whose Go name would be the Go name of its own type is named after
+`<constructor>Obj` instead; otherwise, and always for the struct of a single-constructor type, the
+name is the constructor's. -/
+theorem ctor_name_rule (goify : Str → Str) (k : Kind) (t ctor : Str) :
+    (k = .single → ctorGoName goify k t ctor = goify ctor) ∧
+    (k ≠ .single → goify ctor ≠ goify t → ctorGoName goify k t ctor = goify ctor) ∧
+    (k ≠ .single → goify ctor = goify t → ctorGoName goify k t ctor = goify (ctor ++ "Obj".toList)) := by
+  refine ⟨?_, ?_, ?_⟩
+  · intro h; subst h; rfl
+  · intro hk hne; cases k <;> simp_all [ctorGoName]
+  · intro hk he; cases k <;> simp_all [ctorGoName]
+
+/-- with a naming function that ignores the case of the first letter, constructor `foo` of the
+several-constructor type `Foo` is declared as `fooObj`, constructor `bar` as `bar` -/
+example :
+    let g : Str → Str := fun s => s.map Char.toLower
+    ctorGoName g .iface (cs!"Foo") (cs!"foo") = cs!"fooobj" ∧ ctorGoName g .iface (cs!"Foo") (cs!"bar") = cs!"bar" ∧
+    ctorGoName g .single (cs!"Foo") (cs!"foo") = cs!"foo" := by decide +kernel
+
+theorem allSome_map {α β} (f : α → Option β) (g : β → Nat) (h : α → Nat) (l : List α) (r : List β)
+    (hfg : ∀ a b, f a = some b → g b = h a) (hr : allSome (l.map f) = some r) : r.map g = l.map h := by
+  induction l generalizing r with
+  | nil => simp [allSome] at hr; subst hr; rfl
+  | cons a l ih =>
+    simp only [List.map_cons] at hr
+    cases hfa : f a with
+    | none => simp [hfa, allSome] at hr
+    | some b =>
+      simp only [hfa, allSome] at hr
+      cases hrest : allSome (l.map f) with
+      | none => simp [hrest] at hr
+      | some r' =>
+        simp only [hrest, Option.map_some, Option.some.injEq] at hr
+        subst hr
+        simp [hfg a b hfa, ih r' hrest]
+
+/-- **Every definition is declared with its id.** What the model of the generator emits for a schema
+(when it does not panic) is one declaration per constructor and one parameter struct plus one client
+method per function, in the schema's order, each carrying the definition's constructor id. -/
+theorem emit_ids (goify : Str → Str) (s : Schema) (ds : List Decl) (ms : List (Decl × FnDecl))
+    (h : emit goify s = some (ds, ms)) :
+    ds.map (·.crc) = s.objects.map (·.crc) ∧
+    ms.map (·.1.crc) = s.methods.map (·.crc) ∧ ms.map (·.2.crc) = s.methods.map (·.crc) := by
+  simp only [emit] at h
+  cases h1 : allSome (s.objects.map (declOfObj goify s.objects)) with
+  | none => simp [h1] at h
+  | some ds' =>
+    cases h2 : allSome (s.methods.map (declsOfMethod s.objects)) with
+    | none => simp [h1, h2] at h
+    | some ms' =>
+      simp only [h1, h2, Option.some.injEq, Prod.mk.injEq] at h
+      obtain ⟨rfl, rfl⟩ := h
+      refine ⟨allSome_map _ _ _ _ _ ?_ h1, allSome_map _ _ _ _ _ ?_ h2, allSome_map _ _ _ _ _ ?_ h2⟩
+      · intro o d hd
+        simp only [declOfObj] at hd
+        split at hd
+        · simp at hd; subst hd; rfl
+        · split at hd
+          · simp at hd; subst hd; rfl
+          · simp at hd
+      · intro m d hd
+        simp only [declsOfMethod] at hd
+        split at hd
+        · simp at hd; subst hd; rfl
+        · simp at hd
+      · intro m d hd
+        simp only [declsOfMethod] at hd
+        split at hd
+        · simp at hd; subst hd; rfl
+        · simp at hd
+
+/-- the model of the generator does emit for the example schema, and the ids are the schema's -/
+example : ∃ ds ms, emit id exSchema = some (ds, ms) ∧ ds.map (·.crc) = [0x7efe0e, 0x733f2961] ∧
+    ms.map (·.2.crc) = [0xf1a2b3c4] := by
+  cases h : emit id exSchema with
+  | none => exact absurd h (by decide +kernel)
+  | some r =>
+    obtain ⟨ds, ms⟩ := r
+    obtain ⟨h1, -, h3⟩ := emit_ids id exSchema ds ms h
+    exact ⟨ds, ms, rfl, h1, h3⟩
+
 end Mtv.Tlgen
